@@ -164,9 +164,13 @@ def run(chk):
             chk.ob('R04.1', f'{lab}: span of the starting vectors is invariant under {cname} (rank[Y | A Y - Y\'] = rank Y)', ok, detail, where,
                    key=f'R04.1|{fname}', method=f'exact rank over GF(p^2) at {len(d.points)} points')
             chk.note_analysed('functions', lab)
+    # ---- R04.5 sibling implementation (interpreted solver package)
+    from . import legacy_solver
+    legacy_solver.starting(chk, repo, 'R04.5', chk.seed, K_pts)
+    legacy_solver.helper_series(chk, repo, 'R04.6', chk.seed)
     series_tables(chk, repo)
     driver(chk, repo)
-    chk.floor('R04.1', 18); chk.floor('R04.2', 15); chk.floor('R04.3', 18); chk.floor('R04.4', 12)
+    chk.floor('R04.5', 10); chk.floor('R04.6', 6); chk.floor('R04.1', 18); chk.floor('R04.2', 15); chk.floor('R04.3', 18); chk.floor('R04.4', 12)
     chk.assume('homogeneous sphere: g(r) = (4 pi G rho / 3) r; all material values positive, shear modulus complex')
 
 
